@@ -28,7 +28,7 @@ REQUIRED_COUNTERS = ['path_requests', 'emit_scripts', 'manifest_comparisons']
 
 
 def time_limit(tier):
-    return 900 if tier == 'quick' else 5400
+    return common.default_limit(tier)
 
 
 def budget(tier):
